@@ -55,6 +55,7 @@ Match(a) ==
       [] a.op = "add_block" -> AddBlock(a.n, a.r, a.v)
       [] a.op = "delete_block" -> DeleteBlock(a.n)
       [] a.op = "add_connection" -> AddConnection(a.a, a.b, a.k)
+      [] a.op = "replace_connection" -> ReplaceConnection(a.a, a.b, a.k)
       [] a.op = "delete_connection" -> DeleteConnection(a.a, a.b)
       [] a.op = "demote_block" -> DemoteBlocks(a.names)
       [] a.op = "rename_blocks" -> RenameBlocks(a.m)
